@@ -342,6 +342,9 @@ func (x *Exec) trSel(t *CSel, env *Env) Val {
 	}
 	if loc := x.selLoc(base, t.Name, env); loc != nil {
 		v := x.load(env.cur, loc)
+		if _, isSlice := under(loc.T).(*types.Slice); isSlice && len(v.S) < 300 {
+			x.sc.assert(app("wfSlice", v.S)) // every slice value in a well-typed heap is well formed
+		}
 		if loc.Kind == lField && strings.Contains(loc.Key, ".") {
 			if si := x.so.structOf(under(base.T).(*types.Pointer).Elem()); si != nil && x.eng.ghostField(si, t.Name) != nil {
 				v.GM = x.eng.ghostMapInfoOfType(x, loc.T)
@@ -522,6 +525,28 @@ func (x *Exec) trCall(t *CCall, env *Env) Val {
 		return Val{T: bseqType, S: x.bseq(env.cur, arg(0))}
 	case "held":
 		return Val{T: tInt, S: x.heldTerm(env.cur, arg(0))}
+	case "abs":
+		// element of a slice's backing array at an ABSOLUTE index (robust under reslicing)
+		sv := arg(0)
+		slt := under(sv.T).(*types.Slice)
+		key, srt := x.elemKey(slt.Elem())
+		return Val{T: slt.Elem(), S: sel(sel(x.heapGet(env.cur, key, srt), app("s_reg", sv.S)), arg(1).S)}
+	case "base":
+		return Val{T: tInt, S: app("s_off", arg(0).S)}
+	case "s64":
+		v := arg(0)
+		return Val{T: tInt64, S: fmt.Sprintf("(ite (>= %s 9223372036854775808) (- %s 18446744073709551616) %s)", v.S, v.S, v.S)}
+	case "s32":
+		v := arg(0)
+		return Val{T: tInt, S: fmt.Sprintf("(ite (>= %s 2147483648) (- %s 4294967296) %s)", v.S, v.S, v.S)}
+	case "range":
+		// content of a byte range of a ghost byte map as a sequence value
+		x.declBytesEq()
+		return Val{T: bseqType, S: app("bseqOf", arg(0).S, arg(1).S, arg(2).S)}
+	case "crcOf":
+		x.sc.declFun("crc32c", []string{"BSeq"}, "Int")
+		x.sc.declare("ax:crc32c", "(assert (forall ((s BSeq)) (! (and (<= 0 (crc32c s)) (<= (crc32c s) 4294967295)) :pattern ((crc32c s)))))")
+		return Val{T: tInt, S: app("crc32c", arg(0).S)}
 	case "heldAt":
 		x.heapBase(heldKey, heldSort)
 		return Val{T: tInt, S: sel(x.heapGet(env.cur, heldKey, heldSort), arg(0).S)}
